@@ -65,7 +65,7 @@
 typedef boost::property_tree::ptree PT;
 typedef std::vector<std::vector<long double>> LD;
 static const double TOL = 1e-10; static const int MAXIT = 300;
-struct SolveOut { size_t iters = 0; double resid = 0; std::vector<double> x; };
+struct SolveOut { size_t iters = 0; double resid = 0; std::vector<double> x, proj; };
 
 static void strip(const Mat &A, const Part &P, int rank, std::vector<ptrdiff_t> &ptr, std::vector<ptrdiff_t> &col, std::vector<double> &val) {
     ptr.assign(1, 0); col.clear(); val.clear();
@@ -111,6 +111,8 @@ template <class LP, template <class, class> class S> static SolveOut run_sdd(con
     size_t nl = ptr.size() - 1;
     SDD solve(x.comm, std::make_tuple(nl, ptr, col, val), prm);
     SolveOut o; o.x.assign(nl, 0.0); std::vector<double> f(s.F.begin() + s.P.off[x.rank], s.F.begin() + s.P.off[x.rank + 1]);
+    // the deflation projector on its own: v -> (I - A Z E^-1 Z^T) v
+    { amgcl::backend::numa_vector<double> pv(f); solve.project(pv); o.proj.assign(pv.data(), pv.data() + nl); }
     std::tie(o.iters, o.resid) = solve(f, o.x); return o;
 }
 template <class LP, class S> static SolveOut run_block(const Ctx &x, const Sys &s) {
@@ -242,8 +244,15 @@ static Result execute(const Toks &t) {
         SolveOut o;
         if (lp == 0) o = sv == 0 ? run_sdd<LP0, amgcl::solver::cg>(x, s, dv) : sv == 1 ? run_sdd<LP0, amgcl::solver::bicgstab>(x, s, dv) : run_sdd<LP0, amgcl::solver::gmres>(x, s, dv);
         else         o = sv == 0 ? run_sdd<LP1, amgcl::solver::cg>(x, s, dv) : sv == 1 ? run_sdd<LP1, amgcl::solver::bicgstab>(x, s, dv) : run_sdd<LP1, amgcl::solver::gmres>(x, s, dv);
+        auto PV = gather_vec(x, o.proj, s.P);
         auto rv = check_solve(r, x, s.A, s.P, s.F, o, true, "subdomain_deflation");
         if (x.rank) return r;
+        // Z^T (I - A Z E^-1 Z^T) f = 0 exactly when E = Z^T A Z is assembled from the rows of ALL ranks
+        { long double fn2 = 0; for (double v : s.F) fn2 += (long double)v * v; fn2 = std::sqrt(fn2);
+          for (int q = 0; q < x.np && r.ok; ++q) for (int j = 0; j < ndv_of(dv, q); ++j) {
+            long double zp = 0, zn = 0; for (long i = s.P.off[q]; i < s.P.off[q + 1]; ++i) { long double z = defvec(dv, i - s.P.off[q], (unsigned)j); zp += z * PV[i]; zn += z * z; }
+            if (!(std::fabs(zp) <= 1e-9L * std::max<long double>(1.0L, fn2) * std::sqrt(std::max<long double>(zn, 1.0L)))) { r.fail("subdomain_deflation::project: the projected vector is not orthogonal to deflation vector " + std::to_string(j) + " of rank " + std::to_string(q) + ": z^T (I - A Z E^-1 Z^T) f = " + std::to_string((double)zp) + " (E must be Z^T A Z of the whole matrix, couplings between ranks included)"); break; }
+          } }
         long double fn = 0; for (double v : s.F) fn += (long double)v * v; fn = std::sqrt(fn);
         for (int q = 0; q < x.np && r.ok; ++q) for (int j = 0; j < ndv_of(dv, q); ++j) {
             long double zr = 0, zn = 0; for (long i = s.P.off[q]; i < s.P.off[q + 1]; ++i) { long double z = defvec(dv, i - s.P.off[q], (unsigned)j); zr += z * rv[i]; zn += z * z; }
